@@ -317,6 +317,29 @@ func generateMacDataForSmRApduTlv(smRApduTlv *tlv.TlvNodes, ssc []byte) []byte {
 	return out
 }
 
+// checks that an SM response is exactly [DO'85' or DO'87'] [DO'99'] DO'8E' (9303-11 9.8.4) in minimal encoding:
+// further, repeated or re-ordered data objects and other length forms are not part of the MAC input
+func checkSmRApduStructure(smRApduTlv *tlv.TlvNodes, data []byte) error {
+	nodes := smRApduTlv.Nodes()
+	idx := 0
+
+	if idx < len(nodes) && (nodes[idx].Tag() == 0x85 || nodes[idx].Tag() == 0x87) {
+		idx++
+	}
+	if idx < len(nodes) && nodes[idx].Tag() == 0x99 {
+		idx++
+	}
+	if idx != len(nodes)-1 || nodes[idx].Tag() != 0x8E {
+		return fmt.Errorf("unexpected data objects in SM response (expected [85|87] [99] 8E)")
+	}
+
+	if !bytes.Equal(smRApduTlv.Encode(), data) {
+		return fmt.Errorf("SM response data objects are not in their minimal encoding")
+	}
+
+	return nil
+}
+
 func (sm *SecureMessaging) decodeVerifyMAC(tlv *tlv.TlvNodes) error {
 	macData := generateMacDataForSmRApduTlv(tlv, sm.ssc)
 	actMAC := tlv.NodeByTag(0x8E).Value()
@@ -433,6 +456,12 @@ func (sm *SecureMessaging) Decode(rApduBytes []byte) (rApdu *RApdu, err error) {
 		if err != nil {
 			return nil, fmt.Errorf("(sm.Decode) error decoding rApduData: %w", err)
 		}
+	}
+
+	// the MAC was computed over a re-encoding of the expected objects only, so the response must consist of
+	// exactly those objects, in order and in that encoding - nothing else is covered by the MAC
+	if err = checkSmRApduStructure(tlv, smRApdu.Data); err != nil {
+		return nil, fmt.Errorf("(sm.Decode) %w", err)
 	}
 
 	rApdu = NewRApdu(rApduStatus, rapduData)
